@@ -353,7 +353,7 @@ def euler(chk, prog):
     chk.ob("EULER.ctor", fnew.ref + "::xyz", "DCM(x=,y=,z=) == Rx Ry Rz", lambda: ctor({"x": a[0], "y": a[1], "z": a[2]}, Rx(a[0]) @ Ry(a[1]) @ Rz(a[2])), module=DCM, function="DCM.__new__", construct="DCM(x=,y=,z=)")
 
 
-def dcm_log(chk, prog):
+def dcm_log(chk, prog, tier="quick"):
     cls = prog.cls(DCM + "::DCM")
     f = cls.lookup("log")
     chk.touch(f)
@@ -373,13 +373,28 @@ def dcm_log(chk, prog):
     chk.ob("LOG", f.ref, "log(R)^T == -log(R) and |log R|_F^2 == 2 t^2 (generic arm)", law, module=DCM, function="DCM.log", construct="matrix logarithm", line=f.node.lineno)
     band_rule(chk, f, "C10", 1e-3, "the logarithm must be correct for every rotation angle, including below 1e-3 rad")
     log_arms(chk, prog, f, q, R)
-    log_samples(chk, prog, f, q, R)
+    log_samples(chk, prog, f, q, R, samples=LOG_SAMPLES if tier != "thorough" else LOG_SAMPLES + _more_log_samples())
+
+
+def _more_log_samples():
+    """thorough tier: a low-discrepancy sweep of 14 axes (all sign patterns of the dominant component) x 12 angles up to pi - 1e-4"""
+    import math
+    out = []
+    angles = [3e-7, 1e-5, 1e-3, 0.05, 0.7, 1.5707, 1.9, 2.5, 2.9, 3.1, 3.14, math.pi - 1e-4]
+    for k in range(14):
+        z = 1 - (2 * k + 1) / 14.0
+        r_ = math.sqrt(max(0.0, 1 - z * z))
+        ph = k * 2.399963229728653          # golden angle
+        ax = (r_ * math.cos(ph), r_ * math.sin(ph), z)
+        for t in angles:
+            out.append((t, ax))
+    return out
 
 
 LOG_SAMPLES = [(t, ax) for t in (1e-4, 0.3, 1.2, 2.2, 3.0, 3.1405) for ax in ((0.36, 0.48, 0.8), (-0.36, -0.48, -0.8), (0.6, -0.8, 0.0), (0.0, -1.0, 0.0), (-0.8, 0.0, 0.6), (0.1, 0.2, -0.9746794344808963))]
 
 
-def log_samples(chk, prog, f, q, R, tol=1e-6):
+def log_samples(chk, prog, f, q, R, tol=1e-6, samples=None):
     """LOG.sample: DCM.log is interpreted along the one decision path each sample rotation takes (pivot choices of a quaternion route, series / near-pi arms ...):
     the closed form of that path, evaluated at the sample, must be theta/(2 sin theta) (R - R^T) with theta = arccos((tr R - 1)/2).  Angles from 1e-4 to
     pi - 1e-3, axes with positive and with negative dominant components."""
@@ -387,7 +402,7 @@ def log_samples(chk, prog, f, q, R, tol=1e-6):
     from sa.lib import sample_oracle
     qn = [str(x) for x in q]
     signs = []
-    for t, ax in LOG_SAMPLES:
+    for t, ax in (samples if samples is not None else LOG_SAMPLES):
         nrm = math.sqrt(sum(a * a for a in ax))
         vals = {qn[0]: math.cos(t / 2), qn[1]: math.sin(t / 2) * ax[0] / nrm, qn[2]: math.sin(t / 2) * ax[1] / nrm, qn[3]: math.sin(t / 2) * ax[2] / nrm}
 
@@ -628,7 +643,7 @@ def run(chk, prog, tier):
     power(chk, prog)
     euler(chk, prog)
     unit_options(chk, prog)
-    dcm_log(chk, prog)
+    dcm_log(chk, prog, tier)
     chk.require_count("RPY", 3)
     chk.require_count("EULER.sequence", 8)
     canaries(chk, prog)
